@@ -6,7 +6,7 @@ import time
 from concurrent.futures import ThreadPoolExecutor
 
 from vlib import cbuild, coqbuild
-from vlib.common import NCPU, VERIF, sh
+from vlib.common import NCPU, REPO, VERIF, sh
 from props import c02
 
 PROP_FILE = "Properties_C17.v"
@@ -440,7 +440,10 @@ def run_pair(cpp_exe, ml_exe, cmds, timeout=900, env=None):
     rc1, out1, err1 = sh([cpp_exe], input="\n".join(cmds) + "\n", timeout=timeout, env=env)
     obs, ops, extra = split_ops(out1)
     rc2, out2, err2 = sh([ml_exe], input="\n".join(ops) + "\n", timeout=timeout)
-    l2 = [l for l in out2.split("\n") if l]
+    l2all = [l for l in out2.split("\n") if l]
+    l2 = [l for l in l2all if l[0] not in "IH"]
+    # model-only lines: I = C17_fen_total evaluated on this string, H = hypothesis of the short-form theorems
+    extra = extra + ["m" + l for l in l2all if l[0] in "IH"]
     return rc1, rc2, obs, l2, extra, (err1[-3000:] + err2[-1500:])
 
 
@@ -693,6 +696,7 @@ def run(ctx):
     crashes = []            # (harness command, rc, message)
     spec_fails = []
     tree_fails = []
+    model_fails = []        # statements about the model alone that its evaluation refutes
     harvest = []
     pgn_texts = []
 
@@ -735,6 +739,13 @@ def run(ctx):
                     ctx.evaluated()
                 elif l[0] == "X":
                     pgn_texts.append(unhx(l.split()[1]))
+                elif l.startswith("mI"):
+                    stats["fen_index_model_evaluated"] = stats.get("fen_index_model_evaluated", 0) + 1
+                    if l.split()[1] != "1":
+                        model_fails.append(("C17_fen_total fails on the model: " + l[3:], ch))
+                elif l.startswith("mH"):
+                    k = "short_form_hypothesis_holds" if l.split()[1] == "1" else "short_form_hypothesis_NOT_met"
+                    stats[k] = stats.get(k, 0) + 1
             if len(ctx.samples) < 4:
                 for i, l in enumerate(l1):
                     if l.startswith("M ") and l != "M -" and i < len(l2):
@@ -826,6 +837,10 @@ def run(ctx):
     corr_broken = bool(disagreements)
     if spec_fails or tree_fails or crashes:
         return
+    if model_fails and not corr_broken:
+        what, ch = model_fails[0]
+        ctx.violation(what, {"broken": what, "chunk_head": ch[:3], "count": len(model_fails)}, no_failing_input=True)
+        return
     if not proof_broken and not corr_broken:
         return
     # (5) finder: implementation against the property itself in the neighbourhood of the disagreement
@@ -837,7 +852,7 @@ def run(ctx):
         replay["disagreement"] = {"harness_command": small[:20000], "decoded": describe_cmd(small), "cpp": a[:2000], "model": b[:2000],
                                   "note": note, "count": len(disagreements)}
         try:
-            if len(small) < 20000:
+            if len(small) < 20000 and REPO == "/repo":      # scratch-tree runs (mutation testing) do not grow the corpus
                 with open(CORPUS, "a") as f:
                     f.write("# seed %d\n%s\n" % (ctx.seed, small))
         except OSError:
